@@ -10,7 +10,7 @@ from vf.prog import World, execute, expect_sequential, expect_transfer, flat_pai
 
 PID = "C11"
 RULE = (
-    "case = 1..3 small labware + device + worklist max_volume (small, so that volumes split) + a program of 1..14 "
+    "case = 1..3 small labware + device + worklist max_volume (small, so that volumes split) + auto_split on/off + a program of 1..14 "
     "successful operations mixing add / remove / aspirate / dispense / transfer (1..6 triples, zero volumes, all-zero "
     "transfers, splits, same-labware, label present / absent / empty) / distribute (also volume 0 and source = "
     "destination). After every operation, for every labware: prefix preservation, number of new entries, newest "
@@ -27,7 +27,7 @@ ASSUMPTIONS = [
 BUDGET = {"quick": (4, 300), "thorough": (16, 4000)}
 KNOWN_KINDS = {}
 STRATA = ["transfer", "distribute", "direct", "mixed"]
-REQUIRED_CLASSES = ["op:transfer", "op:distribute", "op:add", "op:remove", "op:aspirate", "op:dispense", "split", "all-zero-transfer", "zero-in-transfer", "same-labware-transfer", "distribute-src=dst", "label:absent", "label:present"]
+REQUIRED_CLASSES = ["op:transfer", "op:distribute", "op:add", "op:remove", "op:aspirate", "op:dispense", "split", "all-zero-transfer", "zero-in-transfer", "same-labware-transfer", "distribute-src=dst", "label:absent", "label:present", "auto_split:on", "auto_split:off"]
 
 
 @st.composite
@@ -47,7 +47,7 @@ def _case(draw, focus):
     direct = op_direct(vs, max_n=4)
     anyop = st.one_of(t, d, direct, direct)
     fop = {"transfer": t, "distribute": d, "direct": direct, "mixed": anyop}[focus]
-    return {"labs": labs, "device": draw(st.sampled_from(["evo", "fluent"])), "M": draw(st.sampled_from([5, 12.5, 50, 950])), "ops": draw(st.lists(st.one_of(fop, anyop), min_size=1, max_size=14))}
+    return {"labs": labs, "device": draw(st.sampled_from(["evo", "fluent"])), "M": draw(st.sampled_from([5, 12.5, 50, 950])), "auto_split": draw(st.sampled_from([True, True, False])), "ops": draw(st.lists(st.one_of(fop, anyop), min_size=1, max_size=14))}
 
 
 def strategy(tier, stratum):
@@ -63,7 +63,9 @@ def check_case(case) -> Obs:
     obs.units = 0
     specs = case["labs"]
     M = case["M"]
-    world = World(specs, device=case["device"], grid=0.01, wl_kwargs={"max_volume": M})
+    auto_split = case.get("auto_split", True)
+    world = World(specs, device=case["device"], grid=0.01, wl_kwargs={"max_volume": M, "auto_split": auto_split})
+    obs.cls("auto_split:" + ("on" if auto_split else "off"))
     wl = world.wl
     troughs = trough_indices(specs)
     snapshots = []  # (description, live array object, deep copy)
@@ -90,7 +92,7 @@ def check_case(case) -> Obs:
         if kind in ("aspirate", "dispense"):
             op["cap"] = M
         if kind == "transfer":
-            op["cap"] = 4 * M
+            op["cap"] = 4 * M if auto_split else M
         conc = resolve(world, op)
         if kind == "distribute" and (not conc["dflat"] or conc["vol"] > M):
             continue
